@@ -11,7 +11,10 @@ Inductive obs :=
 | OCert (h : hash) (complete : bool)
 | OEmpty.                                   (* Certificate{} with a nil error *)
 
-Record attr := Attr { at_sup : bool; at_valid : bool; at_complete : bool }.
+(** per cached certificate: hello.SupportsCertificate, within its validity now, chain and key
+    present, and the subject names the LEAF really carries (as the harness issued it -- not the
+    Names certmagic derived from it) *)
+Record attr := Attr { at_sup : bool; at_valid : bool; at_complete : bool; at_names : list name }.
 
 Record lcase := LCase {
   l_cap : nat;
@@ -35,7 +38,7 @@ Inductive case :=
 | KName (ltbl : list (N * N)) (stbl : list N) (dflt ip : str) (idna : option str) (o : option str).
 
 Definition attr_get (a : amap attr) (h : hash) : attr :=
-  match alookup h a with Some x => x | None => Attr false false false end.
+  match alookup h a with Some x => x | None => Attr false false false [] end.
 
 Definition result_eqb (r : result) (o : obs) : bool :=
   match r, o with
@@ -65,6 +68,9 @@ Section Run.
   Definition listed_under (s : state) (h : hash) (m : name) : bool :=
     mem_str h (idx s m) &&
     match alookup h (cache s) with Some c => mem_str m (c_names c) | None => false end.
+  (** ... and the leaf of the answer really carries that name *)
+  Definition really_names (c : lcase) (h : hash) (m : name) : bool :=
+    mem_str m (at_names (attr_get (l_attrs c) h)).
 
   (** the certificate just loaded from storage: only when the cache is almost full, for the name
       of the ClientHello (which must qualify), found under that name or under the name with its
@@ -110,13 +116,15 @@ Section Run.
             | Some m =>
                 (* exact before wildcard, fewer wildcard labels first; local IP when there is no SNI;
                    among the certificates listed under that name a supported unexpired one *)
-                listed_under s h m && (negb (existsb good (idx s m)) || good h) &&
+                listed_under s h m && really_names c h m && (negb (existsb good (idx s m)) || good h) &&
                 (negb (existsb (supf c) (idx s m)) || supf c h)       (* else a supported (expired) one *)
             | None =>
                 (* a certificate that does not cover the name: only the default name's (no SNI), the
                    fallback name's, or the one just loaded from storage when the cache is almost full *)
-                (dflt && listed_under s h (normalize lower is_space (default_name (l_cfg c)))) ||
-                (fb && listed_under s h (normalize lower is_space (fallback_name (l_cfg c)))) ||
+                (dflt && listed_under s h (normalize lower is_space (default_name (l_cfg c))) &&
+                   really_names c h (normalize lower is_space (default_name (l_cfg c)))) ||
+                (fb && listed_under s h (normalize lower is_space (fallback_name (l_cfg c))) &&
+                   really_names c h (normalize lower is_space (fallback_name (l_cfg c)))) ||
                 loaded_ok c h
             end
         end
@@ -175,7 +183,7 @@ Definition qual_spec (is_space : N -> bool) (s : str) : bool :=
 
 (** ---- wire ---- *)
 Definition get_attr : dec attr :=
-  (s <- get_bool ;; v <- get_bool ;; c <- get_bool ;; ret (Attr s v c))%Z.
+  (s <- get_bool ;; v <- get_bool ;; c <- get_bool ;; n <- get_list get_str ;; ret (Attr s v c n))%Z.
 Definition get_obs : dec obs :=
   (t <- get_z ;;
    if t =? 0 then ret OErr
